@@ -84,6 +84,15 @@ func genCfg(rng *rand.Rand, profile string) Cfg {
 		c.Mods = ensure(c.Mods, "confirm", "recover", "auth")
 	case "remember":
 		c.Mods = ensure(c.Mods, "auth", "remember")
+	case "password":
+		c.Mods = ensure(c.Mods, "auth", "recover", "remember")
+	case "register":
+		c.Mods = ensure(c.Mods, "auth", "register")
+	case "onetime":
+		c.Mods = ensure(c.Mods, "auth", "otp")
+	case "expire":
+		c.Mods = ensure(c.Mods, "auth")
+		c.Expire = true
 	}
 	return c
 }
@@ -873,8 +882,7 @@ func (g *Gen) scenarios() []intent {
 			case 2: // the OAuth2 account gets locked / unconfirmed, then logs in again
 				pid := "oauth2;;" + prov + ";;" + pa.UID
 				nm := "o" + prov + pa.UID
-				g.r.account(nm).PID = pid
-				out = append(out, SymStep{Kind: pickS(g.rng, "lock", "startconfirm"), U: nm}, st, cb)
+				out = append(out, SymStep{Kind: pickS(g.rng, "lock", "startconfirm"), U: nm, P: pid}, st, cb)
 			}
 			return out
 		})
